@@ -78,6 +78,19 @@ func (p *Prog) d(v ssa.Value, depth int, seen map[ssa.Value]bool) string {
 		if ta, ok := x.Tuple.(*ssa.TypeAssert); ok && x.Index == 0 {
 			return p.d(ta.X, depth, seen)
 		}
+		if nx, ok := x.Tuple.(*ssa.Next); ok {
+			if rg, ok := nx.Iter.(*ssa.Range); ok {
+				m := p.d(rg.X, depth+1, seen)
+				switch x.Index {
+				case 0:
+					return "more(" + m + ")"
+				case 1:
+					return "κ(" + m + ")" // the key of a `for k, v := range m` iteration
+				default:
+					return "val(" + m + ")"
+				}
+			}
+		}
 		return fmt.Sprintf("%s#%d", p.d(x.Tuple, depth+1, seen), x.Index)
 	case *ssa.Call:
 		return p.dCall(&x.Call, depth, seen)
@@ -437,9 +450,13 @@ func calleeFullName(c *ssa.CallCommon) string {
 // isRangeIndexPhi: the hidden counter of a range-over-slice loop (phi [-1, counter+1]).
 func isRangeIndexPhi(v ssa.Value) bool {
 	phi, ok := v.(*ssa.Phi)
-	if !ok || phi.Block().Comment != "rangeindex.loop" || len(phi.Edges) != 2 {
+	if !ok || phi.Block().Comment != "rangeindex.loop" {
 		return false
 	}
-	k, ok := phi.Edges[0].(*ssa.Const)
-	return ok && k.Value != nil && k.Value.ExactString() == "-1"
+	for _, e := range phi.Edges {
+		if k, ok := e.(*ssa.Const); ok && k.Value != nil && k.Value.ExactString() == "-1" {
+			return true
+		}
+	}
+	return false
 }
